@@ -277,6 +277,24 @@ def hierarchy_job(kind, counts, window=None, transitive=False):
                exact_floats=False, timeout_s=1500)
 
 
+def multipitch_chord_job(nf, frames=1):
+    """multipitch self-comparison with nf pitches per frame, listed in any order (the pitches of a frame are a set)"""
+    spec = T.by_name('multipitch.metrics')
+
+    def build(ctx):
+        inp = T.b_multipitch(nf)(ctx, (frames, frames))
+        inp['est'] = T.cp(inp['ref'])
+        return inp
+
+    def body(A, inp):
+        res = spec.call(inp)
+        for (nm, kind), v, want in zip(spec.outs, res, spec.perfect):
+            A.observe(nm, v)
+            A.require(A.eq(v, want), '%s.%s(x,x)==%s' % (spec.name, nm, want))
+    return Job('C02', 'multipitch.metrics[self,%d frame(s) of %d pitches in any order]' % (frames, nf), build, body, funcs=spec.funcs,
+               bounds=dict(frames=frames, pitches_per_frame=nf), exact_floats=False, timeout_s=900)
+
+
 def jobs(tier):
     q = tier == 'quick'
     js = []
@@ -320,6 +338,10 @@ def jobs(tier):
     for n in (1, 2):
         js.append(velocity_job(n))
     js.append(velocity_job(1, None))
+    js.append(multipitch_chord_job(2))
+    if not q:
+        js.append(multipitch_chord_job(3))
+        js.append(multipitch_chord_job(2, frames=2))
     js.append(velocity_unison_job())
     js.append(transcription_unison_job())
     for counts in ([(2, 2), (1, 2)] if q else [(2, 2), (1, 2), (1, 3), (2, 3), (1, 2, 2)]):
